@@ -168,6 +168,18 @@ def gen(ck):
         add((t, {'bogus': 1}))
         add((t, {'type_byte': 1}))
     add(('end_of_track', {'time': None}))
+    # ill-typed values that are EQUAL to the documented default of the attribute (4.0 == 4): still not integers
+    defaults = {'sequence_number': {'number': 0}, 'channel_prefix': {'channel': 0}, 'midi_port': {'port': 0}, 'set_tempo': {'tempo': 500000},
+                'smpte_offset': {'frame_rate': 24, 'hours': 0, 'minutes': 0, 'seconds': 0, 'frames': 0, 'sub_frames': 0},
+                'time_signature': {'numerator': 4, 'denominator': 4, 'clocks_per_click': 24, 'notated_32nd_notes_per_beat': 8}}
+    import fractions
+    for t, d in defaults.items():
+        for a, v in d.items():
+            if a == 'frame_rate':
+                continue
+            add((t, {a: float(v)}))
+            add((t, {a: fractions.Fraction(v)}))
+            add((t, {a: v == 1 or (v == 0 and False)}))      # True where 1 is the default, else False (bool is an int: documented)
     return cases
 
 
@@ -200,10 +212,9 @@ def run(ck):
         ck.count('ctor:' + lines[0].split(' ')[0] + (':' + lines[0].split(' ')[1] if lines[0].startswith('err') else ''))
         if fail:
             ck.oracle_fail({'type': t, 'kwargs': repr(kw) if not big else 'too long; lengths ' + repr({k: len(v) for k, v in kw.items()})}, fail)
-        try:
-            toks = ' '.join('%s=%s' % (k, metas.val_tok(v)) for k, v in kw.items())
-        except ValueError:
-            continue
+        toks = ' '.join('%s=%s' % (k, metas.val_tok(v)) for k, v in kw.items())
+        if any(metas.val_tok(v).startswith('x') for v in kw.values()):
+            continue            # a kind of value the model has no counterpart for (Fraction, nan): judged by the oracle only
         r_new.append(f'mnew {t} {toks}'.rstrip())
         i_new.append(lines[0])
         if lines[1] != 'skip':
